@@ -42,11 +42,6 @@ def verify_family(ctx, mc_cfgs):
     out = run_driver(ctx, drv, "verify", trace, cases=cases)
     ctx.log("driver:", out.strip())
     mism = validate_trace(ctx, "TraceVerify.tla", "TraceVerify.cfg", trace, classify=verify_class)
-    # notes emitted by the driver (honest neighbours in a batch rejected, summary flag wrong)
-    for ln in open(trace):
-        ev = json.loads(ln)
-        if ev.get("op") == "note":
-            mism.append((ev, ev["what"]))
     report_mismatches(ctx, mism)
 
 
@@ -146,3 +141,59 @@ def c17(ctx):
            "replayed by TLC through BosCoster.tla on the real scalars; result compared with the exact sum. Fallback counter: all-valid batches (BatchCases.AllValid: sizes 0..70, 126..132, 191..257; "
            "random / all-zero / all-ones entropy) validated through Batch.tla: Equation(1) and no Fallback event in every chunk. " + BATCH_RULE,
            ASSUME_COMMON + ["inputs the spec flags design-inexact (pending non-zero 128-bit scalars at loop exit, remainder above limb128bits) are excluded from the exactness claim as in the property text"])
+
+
+# ---------------------------------------------------------------- sign family
+
+def sign_class(ev):
+    if ev.get("op") == "sign":
+        return "sign|%s|ctx=%d|msg=%d|%s" % (ev["variant"], len(ev["ctx"]), ev["msglen"], "special-seed" if len(set(ev["seed"])) == 1 else "seed")
+    if ev.get("op") == "opts":
+        return "opts|%s|%s|hash=%s|ctx=%s|msg=%s" % (ev["api"], ev["style"], ev["hash"], ev["ctxlen"], ev["msglen"])
+    if ev.get("op") == "verify":
+        return "%s|zip=%s|%s|%s|ctx=%s|n=%s|pos=%s" % (ev["api"], ev["zip"], ev["variant"], ev.get("srule"), ev.get("ctxlen"), ev.get("batch_n"), ev.get("batch_pos"))
+    return ev.get("op")
+
+
+def sign_family(ctx):
+    drv = build_driver(ctx)
+    trace = os.path.join(ctx.work, "sign.ndjson")
+    vtrace = os.path.join(ctx.work, "sign_verify.ndjson")
+    out = run_driver(ctx, drv, "sign", trace, extra=["-aux", vtrace])
+    ctx.log("driver:", out.strip())
+    mism = []
+    if os.path.getsize(trace) > 0:
+        mism += validate_trace(ctx, "TraceSign.tla", "TraceSign.cfg", trace, classify=sign_class)
+    if os.path.getsize(vtrace) > 0:
+        mism += validate_trace(ctx, "TraceVerify.tla", "TraceVerify.cfg", vtrace, classify=sign_class)
+    report_mismatches(ctx, mism)
+
+
+SIGN_ASSUME = ASSUME_COMMON + ["the two base-point multiples of a sign event ([a]B, [r]B) are projected by refmodel (math/big) and cross-checked against crypto/ed25519 of the toolchain; "
+                               "the hash inputs (dom2 || prefix || M, dom2 || R || A || M) are composed by the harness from the RFC text, the dom2 bytes are re-derived by TLC"]
+
+
+@check("C02")
+def c02(ctx):
+    model_check(ctx, "MCOptions.tla", "MCOptions.cfg")
+    sign_family(ctx)
+    finish(ctx, "seeds (all-zero, all-ones, random) x variant/context pairs (pure; ctx 1,2,16,254,255; ph 0,1,16,255) x message lengths (0,1,111,112,127,128,129,300; thorough: 4096, 1 MiB) "
+           "signed through every entry point twice with a counting entropy reader; each event validated by TLC against SignSpec.tla (clamp, reductions mod L, S, dom2 bytes, determinism, "
+           "entropy untouched, equality with crypto/ed25519); class = (variant, context length, message length, seed kind)", SIGN_ASSUME)
+
+
+@check("C03")
+def c03(ctx):
+    model_check(ctx, "MCVerify.tla", "MCVerify_quick.cfg")   # includes HonestAccepted: S = r + h a is accepted in both modes
+    sign_family(ctx)
+    finish(ctx, "every signature produced by the sign driver is verified by Verify, VerifyWithOptions (default and ZIP-215) and as a member of batches of size 1,3,4,5,64,65,129 "
+           "(every member position), each verdict validated by TLC through the Verify pipeline with the signer's coordinates (a, r); sign events additionally require S < L, a != 0, r != 0", SIGN_ASSUME)
+
+
+@check("C07")
+def c07(ctx):
+    model_check(ctx, "MCOptions.tla", "MCOptions.cfg")
+    sign_family(ctx)
+    finish(ctx, "14 (variant, context) pairs differing in one bit / length / trailing zero / 254 vs 255 / variant: sign under each, verify under every pair (single default, ZIP-215, batch member), "
+           "expected verdict computed by TLC from the verifier-side hash; option/length matrix (style x hash selector x context length {0,1,2,254,255,256,257,1000} x message length {0,63,64,65}) "
+           "on Sign / VerifyWithOptions / VerifyBatch: refusal surface and the variant actually used (which stdlib-made candidate signature matches / is accepted)", SIGN_ASSUME)
